@@ -326,7 +326,152 @@ func (e *Engine) readsObligations() []*Obligation {
 		out = append(out, mkObl("READS:"+e.shortFunc(fn)+":layout-free", "READS", fn.String(),
 			"the model builder calls no hidden-channel or optional-separator accessor", len(bad) == 0, strings.Join(bad, "; ")))
 	}
+	// the model builder takes the text of a parse-tree node only where that text cannot contain a doc
+	// string or an optional separator: GetText() on a terminal / token, or on the context of a grammar
+	// rule whose derivations contain neither (decided on the grammar: type, basicType, value, ...).
+	// The text of a whole declaration (type + name + doc string) depends on how the author documented it.
+	for _, fn := range e.allRepoFunctions() {
+		if fn.Signature.Recv() == nil || !strings.Contains(fn.Signature.Recv().Type().String(), "PacketDslVisitorImpl") {
+			continue
+		}
+		var bad []string
+		scan := func(f *ssa.Function) {
+			for _, b := range f.Blocks {
+				for _, in := range b.Instrs {
+					c, ok := in.(ssa.CallInstruction)
+					if !ok {
+						continue
+					}
+					var name string
+					var recv ssa.Value
+					if c.Common().IsInvoke() {
+						name = c.Common().Method.Name()
+						recv = c.Common().Value
+					} else if sc := c.Common().StaticCallee(); sc != nil && len(c.Common().Args) > 0 && sc.Signature.Recv() != nil {
+						name = sc.Name()
+						recv = c.Common().Args[0]
+					}
+					if name != "GetText" || recv == nil {
+						continue
+					}
+					rule, known := e.textReceiverRule(recv)
+					if !known {
+						bad = append(bad, fmt.Sprintf("GetText on %s (%s)", recv.Type(), e.prog.Fset.Position(in.Pos())))
+						continue
+					}
+					if rule != "" && !e.tree.spellingClosed(rule, map[string]bool{}) {
+						bad = append(bad, fmt.Sprintf("GetText on a whole %s (%s)", rule, e.prog.Fset.Position(in.Pos())))
+					}
+				}
+			}
+		}
+		scan(fn)
+		for _, an := range fn.AnonFuncs {
+			scan(an)
+		}
+		out = append(out, mkObl("READS:"+e.shortFunc(fn)+":text-scope", "READS", fn.String(),
+			"the model builder takes node text only from tokens and from rules that contain no doc string and no optional separator", len(bad) == 0, strings.Join(bad, "; ")))
+	}
 	return out
+}
+
+// textReceiverRule: the grammar rule behind the receiver of a GetText() call ("" for a terminal node or
+// token); known=false when the receiver is neither (a generic tree interface).
+func (e *Engine) textReceiverRule(v ssa.Value) (rule string, known bool) {
+	for {
+		switch x := v.(type) {
+		case *ssa.FieldAddr:
+			v = x.X
+			continue
+		case *ssa.ChangeInterface:
+			v = x.X
+			continue
+		case *ssa.MakeInterface:
+			v = x.X
+			continue
+		}
+		break
+	}
+	t := v.Type()
+	if p, ok := t.(*types.Pointer); ok {
+		t = p.Elem()
+	}
+	n, ok := t.(*types.Named)
+	if !ok || n.Obj().Pkg() == nil {
+		return "", false
+	}
+	name := n.Obj().Name()
+	switch n.Obj().Pkg().Path() {
+	case antlrPkg:
+		switch name {
+		case "TerminalNode", "TerminalNodeImpl", "Token", "CommonToken", "ErrorNode":
+			return "", true
+		}
+		return "", false
+	case grammarPkg:
+		if !strings.HasSuffix(name, "Context") {
+			return "", false
+		}
+		if cs, ok := e.tree.ctxs[name]; ok && cs.rule != nil {
+			return cs.rule.name, true
+		}
+		if strings.HasPrefix(name, "I") {
+			if cs, ok := e.tree.ctxs[name[1:]]; ok && cs.rule != nil {
+				return cs.rule.name, true
+			}
+			// interface of a rule with labelled alternatives
+			for rn := range e.tree.rules {
+				if exportName(rn)+"Context" == name[1:] {
+					return rn, true
+				}
+			}
+		}
+	}
+	return "", false
+}
+
+// spellingClosed: no derivation of the rule contains a doc string (STRING_LITERAL) or an optional
+// separator (COMMA? / SEMICOLON?).
+func (ts *TreeSpec) spellingClosed(rule string, seen map[string]bool) bool {
+	if seen[rule] {
+		return true
+	}
+	seen[rule] = true
+	r := ts.rules[rule]
+	if r == nil || r.lexer {
+		return true
+	}
+	var elems func(es []*gElem) bool
+	elems = func(es []*gElem) bool {
+		for _, el := range es {
+			switch el.kind {
+			case "token":
+				if el.name == "STRING_LITERAL" {
+					return false
+				}
+				if (el.name == "COMMA" || el.name == "SEMICOLON") && el.min == 0 {
+					return false
+				}
+			case "rule":
+				if !ts.spellingClosed(el.name, seen) {
+					return false
+				}
+			case "group":
+				for _, a := range el.alts {
+					if !elems(a.elems) {
+						return false
+					}
+				}
+			}
+		}
+		return true
+	}
+	for _, a := range r.alts {
+		if !elems(a.elems) {
+			return false
+		}
+	}
+	return true
 }
 
 // ---------------------------------------------------------------- bounded stand-in: pairs of spellings
@@ -438,6 +583,11 @@ func (e *Engine) spellPairs() []spellPair {
 	add("doc strings", spellProg("", "MetaData M { u16 Code `the code`, }\n", "Code c `a code`,\nu8 x `an x`,\nA obj `an object`,\nu16 Len @lengthOf(Body) `length`,\nu8 Kind `kind`,\nmatch Kind as Body { 1 : A, },\nu32 Sum @calculatedFrom(\"crc\") `sum`,\n"),
 		spellProg("", "MetaData M { u16 Code, }\n", "Code c,\nu8 x,\nA obj,\nu16 Len @lengthOf(Body),\nu8 Kind,\nmatch Kind as Body { 1 : A, },\nu32 Sum @calculatedFrom(\"crc\"),\n"))
 	add("multi-line doc string", spellProg("", "", "u8 x `line one\nline two`,\n"), spellProg("", "", "u8 x,\n"))
+	// doc strings and names that quote DSL vocabulary (a decision taken on the text of a whole declaration
+	// instead of its type would see them)
+	add("doc string quoting a type", spellProg("", "MetaData M { char[6] Tag `was zchar[6] before v2`, }\n", "char[8] n `zchar[8] in the old protocol`,\nTag t,\nu16 w `u32 string char[] repeat root`,\n"),
+		spellProg("", "MetaData M { char[6] Tag, }\n", "char[8] n,\nTag t,\nu16 w,\n"))
+	add("field named after a type word", spellProg("", "", "char[8] zcharname,\nu16 stringlen,\n"), spellProg("", "", "char[8] zcharname `d`,\nu16 stringlen `d`,\n"))
 	// conversely: an attribute applies only to the field it is written on
 	for _, ty := range []string{"char[8]", "zchar[8]"} {
 		add("attribute locality "+ty+" first", spellProg("", "MetaData M { "+ty+" Code, }\n", "@leftPad('0') Code a,\nCode b,\n"), spellProg("", "", "@leftPad('0') "+ty+" a,\n"+ty+" b,\n"))
